@@ -336,6 +336,12 @@ def part_four_bases(ctx, t):
                 ctx.violation("basis-map", f"basis:raises-{type(exc).__name__}", case, repr(exc))
                 continue
             rp, rs = ref(convs[a], convs[b])
+            shape_ok = all(np.shape(p) == (n,) and np.shape(sg) == (n,) and sorted(np.asarray(p).tolist()) == list(range(n)) and set(np.abs(np.asarray(sg)).tolist()) <= {1}
+                           for p, sg in ((p_ab, s_ab), (p_ba, s_ba), (p_bc, s_bc), (p_ac, s_ac)))
+            if not shape_ok:
+                ctx.outcome("basis-map", "NOT-A-SIGNED-PERMUTATION")
+                ctx.violation("basis-map", "basis:not-a-signed-permutation", case, f"convert_conventions on shells {seq} returns a map that is not a signed permutation of range({n}): {np.asarray(p_ab).tolist()}, {np.asarray(s_ab).tolist()}")
+                continue
             vb = v[p_ab] * s_ab
             ok1 = (vb == v[rp] * rs).all() and len(p_ab) == n
             ok2 = (vb[p_ba] * s_ba == v).all()
